@@ -1,5 +1,6 @@
 import SigHook.Props.Packed
 import SigHook.Model.ChannelGen
+import SigHook.Lemmas.ChannelInv
 /-!
 # C07 — Channel cells are never accessed concurrently; values dropped exactly once
 
@@ -57,5 +58,35 @@ def reuseSched : List (Nat × Choice) :=
   (List.replicate 5 (2, ({ read := some 0 } : Choice)))
 
 theorem C07_reuse_ok : racy genOrders reuse reuseSched = false := by decide +kernel
+
+
+/-! ## Race freedom for every execution (any number of threads, any scripts, every interleaving,
+every stale read and spurious compare-exchange failure the memory model allows)
+
+`Lemmas/ChannelInv.lean` proves an invariant of the view-based model (`Inv`): every slot index has
+exactly one holder; the owner of an index has observed every earlier access to its cell, and so
+has the latest message of a queue for each index it contains. It is preserved by every step
+provided the successful enqueue compare-exchange releases and the successful dequeue
+compare-exchange acquires - exactly `C07_orderings_side_condition`. -/
+
+/-- **C07.race_free** — with any orderings that satisfy the side condition, no step of any
+reachable state is a data race on a payload cell. -/
+theorem C07_race_free {o : Orders} (hrel : o.enqSucc.hasRelease = true) (hacq : o.deqSucc.hasAcquire = true)
+    {scripts : List (List Cmd)} {s s' : Sys} {t : Nat} {c : Choice} {out : Out}
+    (hr : Reachable o scripts s) (hs : step o s t c = some (s', out)) : out.race = false :=
+  (inv_step hrel hacq (inv_reachable hrel hacq hr) hs).2.2
+
+/-- **C07.race_free_declared** — the orderings the source declares today (regenerated) are such
+orderings: the channel as written is race free under the model. -/
+theorem C07_race_free_declared {scripts : List (List Cmd)} {s s' : Sys} {t : Nat} {c : Choice} {out : Out}
+    (hr : Reachable genOrders scripts s) (hs : step genOrders s t c = some (s', out)) : out.race = false :=
+  C07_race_free C07_orderings_side_condition.1 C07_orderings_side_condition.2 hr hs
+
+/-- **C07.cell_has_one_owner** — in every reachable state each slot index is held by exactly one
+of: the `empty` queue's latest value, the `full` queue's latest value, one thread (which is the
+only one that may touch the cell). -/
+theorem C07_cell_has_one_owner {scripts : List (List Cmd)} {s : Sys} (hr : Reachable genOrders scripts s) :
+    ∀ idx ∈ idxs, holders s idx = 1 :=
+  (inv_reachable C07_orderings_side_condition.1 C07_orderings_side_condition.2 hr).hold
 
 end SigHook.Channel
